@@ -127,14 +127,17 @@ func (backupManager *BackupManager) DoNativeBackup() error {
 		return err
 	}
 	backupFilename := backupManager.backupLocation + string(os.PathSeparator) + "datahub-backup.kv"
-	var file *os.File
-	if backupManager.fileExists(backupFilename) {
-		file, _ = os.Open(backupFilename)
-	} else {
-		file, _ = os.Create(backupFilename)
+	// incremental backups are appended to the stream of the earlier runs
+	file, err := os.OpenFile(backupFilename, os.O_APPEND|os.O_CREATE|os.O_WRONLY, 0o600)
+	if err != nil {
+		return err
 	}
 	defer file.Close()
-	since, _ := backupManager.store.database.Backup(file, backupManager.lastID)
+	since, err := backupManager.store.database.Backup(file, backupManager.lastID)
+	if err != nil {
+		// keep the cursor: the next run repeats from the last completed backup
+		return err
+	}
 	backupManager.lastID = since
 
 	// store last id
@@ -153,7 +156,7 @@ func (backupManager *BackupManager) StoreLastID() error {
 }
 
 func (backupManager *BackupManager) LoadLastID() (uint64, error) {
-	lastIDFilename := backupManager.backupLocation + string(os.PathSeparator) + "datahub-backupManager.lastseen"
+	lastIDFilename := backupManager.backupLocation + string(os.PathSeparator) + "datahub-backup.lastseen"
 	file, err := os.Open(lastIDFilename)
 	if err != nil {
 		return 0, nil
